@@ -198,6 +198,12 @@ def run(ctx):
     from ..etf import check_atom_tables
     check_atom_tables(ctx, 'C01.5-atom-interning')
 
+    # ---------------- big-integer digits are little-endian everywhere -----------------------------------------------------
+    ctx.rule('C01.7-bigint-digit-order', 'BigInt.digits holds the wire order (least significant byte first); every conversion between digits and machine integers - in the encoder, the decoder helpers, '
+             'the comparison helpers, the serde layer and the Elixir wrappers - reads / writes them that way', floor=5)
+    from ..families import check_bigint_endianness
+    check_bigint_endianness(ctx, P, 'C01.7-bigint-digit-order')
+
     # ---------------- the order that keys decoded maps ------------------------------------------------------------------
     ctx.rule('C01.6-map-key-order', 'decoding collects map entries into a BTreeMap keyed by the term type (both decoders): "same key/value pairs" after a round trip needs an order under which two different keys '
              'never compare Equal - the comparator rules of C11/C12 re-run here', floor=60)
